@@ -896,3 +896,66 @@ Proof.
       * apply incl_refl.
       * apply (hi_slots _ _ _ H). exact Hq'.
 Qed.
+
+(* ------------------------------------------------------------------ what the invariant gives *)
+(* every pointer word in a slot of a table object, and the root word, resolves under the strict
+   rules of BuildValid.v: null, or through well-formed pads (taken from the pad table) to a
+   region that is exactly one table object with matching kind, element size and count; all
+   regions involved lie inside their segments and regions of different table entries are
+   disjoint *)
+Theorem hinv_pointers_valid m objs pads q :
+  hinv m objs pads -> In q ((0, 0) :: flat_map slots objs) ->
+  exists t rs, resolve_ptr (bm_data m) (fst q) (snd q) = (t, rs) /\ is_bad t = false /\
+    (forall r, In r rs -> in_msg (bm_data m) r \/ r_size r = 0) /\
+    (rs = [] \/ exists ps r, rs = ps ++ [r] /\ incl ps pads /\
+        (r_size r = 0 \/ exists h, In h objs /\ r = obj_reg h /\ t = tgt_of h)).
+Proof.
+  intros H Hq. destruct (hi_slots _ _ _ H q Hq) as (t & rs & E & S & C).
+  exists t, rs. split; [exact E|]. split; [destruct t; cbn in *; auto; contradiction|]. split; [|exact C].
+  intros r Hr. destruct C as [->|(ps & r0 & -> & Ips & D)]; [destruct Hr|].
+  apply in_app_or in Hr. destruct Hr as [Hr|[<-|[]]].
+  - left. apply (hi_in _ _ _ H). unfold all_regs. apply in_or_app. right. apply Ips. exact Hr.
+  - destruct D as [D|(h & Hh & -> & _)]; [right; exact D|left].
+    apply (hi_in _ _ _ H). unfold all_regs, regsO. apply in_or_app. left. right. apply in_map. exact Hh.
+Qed.
+
+(* a data write inside the data part of a table object keeps the invariant *)
+Theorem hinv_data_write m objs pads m' h addr bs :
+  hinv m objs pads -> In h objs -> 0 <= p_seg h ->
+  wrote m m' (p_seg h) addr bs ->
+  p_off h <= addr -> addr + zlen bs <= p_off h + r_size (obj_reg h) ->
+  (forall q, In q (slots h) -> addr + zlen bs <= snd q) ->
+  hinv m' objs pads.
+Proof.
+  intros H Hh Hs W Hlo Hhi Hsl.
+  pose proof (wrote_keeps _ _ _ _ _ W Hs) as K. pose proof (wrote_inv _ _ _ _ _ W Hs (hi_inv _ _ _ H)) as I'.
+  assert (N : nsegs m' = nsegs m) by (unfold nsegs; apply (wrote_nsegs _ _ _ _ _ W)).
+  destruct (data_range_avoids m objs pads h addr (addr + zlen bs) H Hh Hlo Hhi Hsl) as [A1 A2].
+  apply (hinv_frame m objs pads m' (fun i k => i = p_seg h /\ addr <= k < addr + zlen bs)); auto.
+  - intros i. destruct (Z_lt_ge_dec i 0) as [L|G].
+    + unfold mem, get_seg. replace (Z.to_nat i) with O by lia. pose proof (wrote_len _ _ _ _ _ 0 W ltac:(lia)) as X.
+      unfold mem, get_seg in X. cbn [Z.to_nat] in X. rewrite X. apply (hi_small _ _ _ H 0).
+    + rewrite (wrote_len _ _ _ _ _ i W) by lia. apply (hi_small _ _ _ H).
+  - lia.
+  - rewrite N. apply (hi_nsegs _ _ _ H).
+Qed.
+
+(* ------------------------------------------------------------------ non-vacuity *)
+(* the invariant holds initially: a message whose only content is the null root word, with
+   empty object and pad tables *)
+Definition hinv_ex_msg : bmsg := mkBM AMulti [mkBS (repeat 0 8) 64] [] 100.
+Example hinv_initial : hinv hinv_ex_msg [] [].
+Proof.
+  constructor.
+  - split; [repeat constructor; cbn; lia|unfold arena_wf; cbn; discriminate].
+  - intros i. unfold mem, get_seg, hinv_ex_msg. cbn [bm_segs].
+    destruct (Z.to_nat i) as [|[|n]]; cbn; unfold maxSegmentSize; lia.
+  - cbn. lia.
+  - intros h [].
+  - intros r [<-|[]]. reflexivity.
+  - intros r [].
+  - intros i j Hij Hj. cbn in Hj. lia.
+  - intros i j Hij Hj. cbn in Hj. lia.
+  - intros a p _ [].
+  - intros q [<-|[]]. apply null_slot_ok. reflexivity.
+Qed.
